@@ -82,6 +82,18 @@ struct AnnotationCsv<'a> {
 }
 
 impl<'a> AnnotationCsv<'a> {
+    /// An internal ranged selector stands for several subselectors and occupies as many entries in
+    /// every column. Returns the number of (empty) entries a column has to add beyond the first.
+    fn ranged_padding(selector: &Selector) -> usize {
+        match selector {
+            Selector::RangedTextSelector { begin, end, .. } => end.as_usize() - begin.as_usize(),
+            Selector::RangedAnnotationSelector { begin, end, .. } => {
+                end.as_usize() - begin.as_usize()
+            }
+            _ => 0,
+        }
+    }
+
     fn set_selectortype(selector: &Selector, store: &AnnotationStore) -> Cow<'a, str> {
         if selector.is_complex() {
             let mut selectortype: String = selector.kind().as_str().to_string();
@@ -187,7 +199,12 @@ impl<'a> AnnotationCsv<'a> {
                             let res: &TextResource = store.get(*res).expect("resource must exist");
                             out += res.id().expect("resource must have an id");
                         }
-                        _ => {}
+                        other => {
+                            //keep the columns aligned for internal ranged selectors of another kind
+                            for _ in 0..Self::ranged_padding(other) {
+                                out.push(';');
+                            }
+                        }
                     }
                 }
             }
@@ -215,7 +232,12 @@ impl<'a> AnnotationCsv<'a> {
                                 store.get(*dataset).expect("dataset must exist");
                             out += dataset.id().expect("dataset must have an id");
                         }
-                        _ => {}
+                        other => {
+                            //keep the columns aligned for internal ranged selectors of another kind
+                            for _ in 0..Self::ranged_padding(other) {
+                                out.push(';');
+                            }
+                        }
                     }
                 }
             }
@@ -250,7 +272,12 @@ impl<'a> AnnotationCsv<'a> {
                                 dataset.get(*key).expect("key must exist");
                             out += key.id().expect("key must have an id");
                         }
-                        _ => {}
+                        other => {
+                            //keep the columns aligned for internal ranged selectors of another kind
+                            for _ in 0..Self::ranged_padding(other) {
+                                out.push(';');
+                            }
+                        }
                     }
                 }
             }
@@ -291,7 +318,12 @@ impl<'a> AnnotationCsv<'a> {
                                 out += data.temp_id().expect("temp_id must succeed").as_str();
                             }
                         }
-                        _ => {}
+                        other => {
+                            //keep the columns aligned for internal ranged selectors of another kind
+                            for _ in 0..Self::ranged_padding(other) {
+                                out.push(';');
+                            }
+                        }
                     }
                 }
             }
@@ -337,7 +369,12 @@ impl<'a> AnnotationCsv<'a> {
                                 out += &ann.temp_id().expect("temp_id must succeed");
                             }
                         }
-                        _ => {}
+                        other => {
+                            //keep the columns aligned for internal ranged selectors of another kind
+                            for _ in 0..Self::ranged_padding(other) {
+                                out.push(';');
+                            }
+                        }
                     }
                 }
             }
